@@ -142,11 +142,22 @@ def run(ctx, chk):
             chk.ob("R18.3", un, "without a draw the result is 0 and n < 2", ok, loc=un.loc(p.end_iid), path=None if ok else p,
                    key="R18.3 randombytes_uniform no-draw")
             continue
-        last = draws[-1]
-        ok = p.ret == ("bin", "urem", last.res, UB, 32)
+        # the returned value is X mod n; X is a draw (directly, or the loop-carried variable every incoming value
+        # of which is a draw), and the path holds not (X < threshold) with the threshold computed from n only
+        drawres = {d.res for d in draws}
+        flows = {}          # loop variable -> draws that flowed into it on this path
+        for kk, vv in p.env.items():
+            if isinstance(kk, tuple) and kk[0] == "hin" and vv in drawres:
+                flows.setdefault(("havoc", kk[1], kk[2]), set()).add(vv)
+        ok = p.ret[0] == "bin" and p.ret[1] == "urem" and p.ret[3] == UB
+        X = p.ret[2] if ok else None
         why = "" if ok else "returns %s" % T.show(p.ret, un)
         if ok:
-            acc = [t for t, v in p.facts.items if v and t[0] == "icmp" and t[1] == "uge" and t[2] == last.res]
+            is_draw = X in drawres or (X[0] == "havoc" and flows.get(X))
+            if not is_draw:
+                ok, why = False, "the reduced value %s is not a value drawn from randombytes_random()" % T.show(X, un)
+        if ok:
+            acc = [t for t, v in p.facts.items if v and t[0] == "icmp" and t[1] == "uge" and t[2] == X]
             if not acc:
                 ok, why = False, "no fact 'not (r < min)' for the returned draw"
             elif T.leaves(acc[0][3]) != {UB}:
@@ -155,9 +166,14 @@ def run(ctx, chk):
                 ok, why = False, "n >= 2 not established"
         chk.ob("R18.3", un, "result is (last accepted draw) mod n with the draw >= a threshold computed from n only", ok,
                loc=un.loc(p.end_iid), detail=why, path=None if ok else p, key="R18.3 randombytes_uniform shape")
-        # rejected draws are redrawn: every earlier draw on the path was below the threshold
-        for d in draws[:-1]:
-            rej = any(v and t[0] == "icmp" and t[1] == "ult" and t[2] == d.res for t, v in p.facts.items)
+        # rejected draws are redrawn: every draw other than the returned one was below the threshold
+        for d in draws:
+            if d.res == X:
+                continue
+            carriers = [d.res] + [h for h, ds in flows.items() if d.res in ds]
+            if X in carriers and d is draws[-1]:
+                continue        # this draw is the one that flowed into the returned variable last
+            rej = any(v and t[0] == "icmp" and t[1] == "ult" and t[2] in carriers for t, v in p.facts.items)
             chk.ob("R18.3", un, "an earlier draw was discarded only because it was below the threshold", rej, loc=un.loc(d.iid),
                    path=None if rej else p, key="R18.3 randombytes_uniform redraw")
     chk.floor("R18.3", "exits of randombytes_uniform without custom generator", k, 2)
